@@ -28,6 +28,8 @@ BOUNDS = {'quick': 'blocks Reg(w=2), Counter(w=2), TReg, DelayLine(2), ClockSync
                    'from a register inside the gated domain / from a register in another domain / from combinational cells inside the gated '
                    'hierarchy / 2 bits wide / attached to the driver after the simulator exists; one or two gated domains',
           'thorough': 'same plus three-domain designs for the five small blocks, and width-2 DelayLine, Stack, SynchronousMemory under gating (one and two domains)'}
+for k in ('quick', 'thorough'):
+    BOUNDS[k] += '; also two gated drivers sharing one enable wire'
 
 BLOCKS = ['Reg', 'Counter', 'TReg', 'DelayLine', 'ClockSyncFSM']
 PLACES = ['self', 'parent', 'grand', 'nested', 'nestedbase']
